@@ -39,7 +39,7 @@ func (r *GRPCResponseExpr) EvalName() string {
 
 // Prepare makes sure the response message and metadata are initialized.
 func (r *GRPCResponseExpr) Prepare() {
-	if r.Message == nil {
+	if r.Message == nil || r.Message.Type == nil {
 		r.Message = &AttributeExpr{Type: Empty}
 	}
 	if r.Message.Validation == nil {
